@@ -120,10 +120,12 @@ def lexer_lemma(run, crate, ntok):
 
 
 def build(run):
-    run.outside += ["build_intent / build_function and the recovery (remove attribute, re-match, restore): DOM + rule interpreter",
+    run.outside += ["build_intent / build_arguments and the recovery (remove attribute, re-match, restore): DOM + rule interpreter",
                     "'speech as if the attribute were ignored' (rule output)"]
     crate_c, lemma_c = arg_lemma(run)
     run.kani(crate_c, [lemma_c], timeout=600)
+    crate_d, lemma_d = fun_lemma(run)
+    run.kani(crate_d, [lemma_d], timeout=600)
     ntok = 3 if run.tier == "quick" else 4
     crate, pats = lexer_crate(run, "c19lex", ntok)
     lem = lexer_lemma(run, crate, ntok)
@@ -194,6 +196,92 @@ def build(run):
             else:
                 run.holds("TV.dfa_mock." + n.lower(), note="(4000 random strings: generated DFA == real regex crate)")
 
+
+
+# ======================================================================================================================
+# K-C19-d: build_function -- chained applications head(args1)(args2)... fold to the left: the head of the n-th application is the
+#          result of the (n-1)-th one, so no argument list is dropped
+FUN_SHIM = r"""
+use core::marker::PhantomData;
+pub type Result<T> = core::result::Result<T, Error>;
+#[derive(Debug)] pub struct Error;
+macro_rules! bail { ($($t:tt)*) => { return Err(Error) }; }
+#[derive(Clone, Copy, PartialEq, Debug)] pub struct Element<'a> { id: u8, p: PhantomData<&'a ()> }
+fn el<'a>(id: u8) -> Element<'a> { Element { id, p: PhantomData } }
+pub struct Document<'a>(PhantomData<&'a ()>);
+pub struct SpeechRulesWithContext<'c, 's, 'm> { p: PhantomData<(&'c (), &'s (), &'m ())> }
+impl<'c, 's, 'm> SpeechRulesWithContext<'c, 's, 'm> { fn get_document(&self) -> Document<'m> { Document(PhantomData) } }
+fn name(_e: &Element) -> &'static str { "f" }
+pub const NT: usize = 12;
+/// the lexer reduced to a token stream over  ( ) , x   (x = any intent that is not an application; one lexer step is K-C19-a's subject)
+pub struct LexState<'b> { toks: [u8; NT], pos: usize, p: PhantomData<&'b ()> }
+impl<'b> LexState<'b> {
+    fn is_terminal(&self, s: &str) -> bool { self.pos < NT && self.toks[self.pos] == s.as_bytes()[0] }
+    fn get_next(&mut self) -> Result<()> { if self.pos < NT { self.pos += 1; Ok(()) } else { Err(Error) } }
+}
+#[derive(Clone, Copy)] pub struct Args { list: u8 }
+static mut NLISTS: u8 = 0;
+static mut NCALLS: usize = 0;
+static mut HEADS: [u8; 6] = [0; 6];
+static mut LISTS: [u8; 6] = [0; 6];
+/// arguments := intent ( ',' intent )*   -- start state: after '(' ; end state: on ')' (or on whatever else follows)
+fn build_arguments<'b, 'c, 's, 'm>(_r: &mut SpeechRulesWithContext<'c, 's, 'm>, lex_state: &mut LexState<'b>, _m: Element<'c>) -> Result<Args> {
+    if !lex_state.is_terminal("x") { return Err(Error); }
+    lex_state.get_next()?;
+    let mut k = 0;
+    while k < NT && lex_state.is_terminal(",") { lex_state.get_next()?; if !lex_state.is_terminal("x") { return Err(Error); } lex_state.get_next()?; k += 1; }
+    unsafe { NLISTS += 1; Ok(Args { list: NLISTS }) }
+}
+/// recorder: which head and which argument list each application gets; the result is a fresh element
+fn lift_function_name<'m>(_doc: Document<'m>, function_name: Element<'m>, children: Args) -> Element<'m> {
+    unsafe { assert!(NCALLS < 6); HEADS[NCALLS] = function_name.id; LISTS[NCALLS] = children.list; NCALLS += 1; el(100 + NCALLS as u8) }
+}
+"""
+
+FUN_HARNESS = r"""
+HARNESS(chained_applications_fold_left, 14) {
+    let mut toks = [0u8; NT];
+    let mut i = 0;
+    while i < NT { toks[i] = match sym::below(5) { 0 => b'(', 1 => b')', 2 => b',', 3 => b'x', _ => 0 }; i += 1; }
+    sym::assume(toks[0] == b'(');                 // documented start state: at '('
+    let mut lex = LexState { toks, pos: 0, p: PhantomData };
+    let mut r = SpeechRulesWithContext { p: PhantomData };
+    let res = build_function(el(1), &mut r, &mut lex, el(0));
+    let n = unsafe { NCALLS };
+    cover!(res.is_ok() && n == 3, "three chained applications reachable");
+    cover!(res.is_err() && n == 1, "error after one complete application reachable");
+    if let Ok(e) = res {
+        assert!(n >= 1, "an application without arguments was accepted");
+        assert!(unsafe { HEADS[0] } == 1, "the first application is not applied to the given head");
+        let mut k = 1;
+        while k < n { unsafe { assert!(HEADS[k] == 100 + k as u8, "a chained application is not applied to the result of the application before it: an argument list is lost"); } k += 1; }
+        let mut k = 0;
+        while k < n { unsafe { assert!(LISTS[k] == k as u8 + 1, "argument lists are applied out of order"); } k += 1; }
+        assert!(e.id == 100 + n as u8, "the result is not the last application");
+        assert!(!lex.is_terminal("("), "build_function stops in front of a further application");
+    }
+}
+"""
+
+
+def api_chain(vals=None, out=None):
+    res = mcprobe([("mathml", "<math><mrow intent='f($x)($y)($z)'><mi arg='x'>x</mi><mo>+</mo><mi arg='y'>y</mi><mo>-</mo><mi arg='z'>z</mi></mrow></math>"), "speech"])
+    sp = res[-1][1] if res[-1][0] == "OK" else ""
+    bad = res[-1][0] != "OK" or not all(w in sp.replace(",", " ").split() for w in ("x", "y", "z"))
+    return bad, {"script": "intent='f($x)($y)($z)': speech must mention each referenced argument x, y, z", "results": res}
+
+
+def fun_lemma(run):
+    src = slicer.Source.get("src/infer_intent.rs")
+    f = src.find("fn build_function")
+    run.uses(f)
+    crate = kani_run.Crate("c19fun", FUN_SHIM + f.text + FUN_HARNESS)
+    run.bound("K-C19-d", "build_function verbatim on every token stream of 12 tokens over { ( ) , x end } that starts with '(' (up to 4 chained applications)")
+    run.assume("K-C19-d: the lexer is reduced to a token stream (one lexer step is K-C19-a's subject); build_arguments is the grammar's `intent (',' intent)*` over that stream; lift_function_name is a recorder returning a fresh element; error text (bail!) not built")
+    return crate, dict(id="K-C19-d.chained_applications_fold_left", harness="chained_applications_fold_left", api=lambda v, o: api_chain(),
+                       role=lambda v, o: "argument-list-lost" if "argument list is lost" in o else "application-order",
+                       covers=["three chained applications reachable", "error after one complete application reachable"],
+                       claim="head(a1)(a2)..(an): application k gets the result of application k-1 as its head and the k-th argument list; the result is the last application")
 
 # ======================================================================================================================
 # K-C19-c: find_arg -- a reference $name resolves to the first descendant with arg=name that is VISIBLE from the element
